@@ -324,6 +324,14 @@ def check(repo, rep, tier):
     rep.rule('R19.3', 'placeholder-safe token access in printers')
     rep.rule('R19.4', 'feature members / shape-specific attributes in printers are available for every category the parser can return')
     rp.r_failed_placeholder(repo, rep, 'R19.3')
+    from ..lints import r_import_time_language
+    r_import_time_language(repo, rep, 'R19.2', repo.py_files('depccg/printer'))
+    from ..parse_model import ParseModel
+    from .. import rules_cxx as rc
+    rc.r_search_loop(ParseModel(repo), rep, 'R19.3')   # failure is reported exactly when no tree was found: no empty result list
+    ti = rp.r_category_table(repo, rep, 'R19.3')
+    if ti:
+        rp.r_sentence_loop(repo, rep, 'R19.3', ti)     # every sentence contributes its trees or the placeholder
     labels = r_label_closure(repo, rep)
     nl = sum(len(v['binary']) + len(v['unary']) for v in labels.values())
     rep.floor('grammar labels extracted', nl, 9 + 2 + 11 + 6)
